@@ -63,4 +63,7 @@ class ParallelEvaluator(Evaluator):
             for i, f in zip(indivs, fitnesses):
                 i.set_fitness(problem, f)
                 self.register_evaluation()
+            if hasattr(problem, "ensure_initialized"):
+                # a lazily sized multi-objective problem was sized in the workers only
+                problem.ensure_initialized(len(fitnesses[0].fitness_components))
         yield from all_indivs
